@@ -97,6 +97,16 @@ def lens():
     return [D, L, R, T, B]
 
 
+def fan():
+    """five triangles around a central junction shared by FIVE cells, surrounded by a ring of five quadrilaterals (the rim
+    vertices are four-cell junctions): junctions of every order >= 4 for the ignore-four option"""
+    r = [(10, 0), (3, 10), (-8, 6), (-8, -6), (3, -10)]
+    R = [(20, 0), (6, 20), (-16, 12), (-16, -12), (6, -20)]
+    tri = [[(0, 0), r[i], r[(i + 1) % 5]] for i in range(5)]
+    quad = [[r[i], R[i], R[(i + 1) % 5], r[(i + 1) % 5]] for i in range(5)]
+    return tri + quad
+
+
 TISSUES = {
     "hexflower": (hex_flower, "7 hexagons; sub-tissues include the ring with a hole"),
     "hex33": (lambda: hex_patch(3, 3), "3x3 affine hexagonal patch"),
@@ -104,6 +114,7 @@ TISSUES = {
     "squares33": (lambda: squares(3, 3), "square grid: four-fold junctions"),
     "irregular": (irregular, "irregular 15-cell tissue with triangles and quadrilaterals"),
     "hex43": (lambda: hex_patch(4, 3), "4x3 affine hexagonal patch (thorough tier)"),
+    "fan5": (fan, "a five-cell junction inside a ring of four-cell junctions"),
     "lens5": (lens, "a two-junction (lens) cell between two neighbours that touch each other: two interfaces join one junction pair"),
 }
 
